@@ -166,6 +166,16 @@ func (obj HhmmTransitionMatrix) GetMatrix() Matrix {
 
 func (obj HhmmTransitionMatrix) Normalize() error {
   obj.normalize(obj.Tree)
+  // a block of states without any probability mass on the transitions
+  // inside of the block cannot be normalized
+  n, m := obj.Matrix.Dims()
+  for i := 0; i < n; i++ {
+    for j := 0; j < m; j++ {
+      if v := obj.Matrix.ConstAt(i, j).GetFloat64(); math.IsNaN(v) || math.IsInf(v, 1) {
+        return fmt.Errorf("transition matrix cannot be normalized: entry (%d,%d) is not a probability", i, j)
+      }
+    }
+  }
   return nil
 }
 
